@@ -83,6 +83,8 @@ def run(ctx):
   rule_consist(ctx)
   rule_rank_blocks(ctx)
   rule_cycles(ctx)
+  rule_rankdp(ctx)
+  ctx.expect("R-C12-RANKDP", 2, "recurrence + result of RankDistribution")
   ctx.expect("R-C12-CYCLES", 1, "the digit loop of RandomWalk")
   rule_minsize(ctx)
   rule_cusum(ctx)
@@ -2205,6 +2207,108 @@ def rule_cycles(ctx):
   probs = sorted(set(probs))
   ctx.record(R, f.where, "cycles cut at the zeros of the walk; visits counted per cycle and state inside the band", not probs, "; ".join(probs[:4]) or
              "evaluated for the new states -12 .. 12 with band 9: count once inside the band, close and renew the cycle at zero, ignore the rest; last cycle appended")
+
+
+# ------------------------------------------------------------------ rank distribution of a random r x c matrix (column by column)
+def rule_rankdp(ctx):
+  """P(rank = j) of a random binary matrix, built column by column: a new column lies in the span of the previous ones (dimension j) with probability
+  2^(j - r), so   new[j + 1] = old[j + 1] + old[j] * (1 - 2^(j - r)),   new[j] = old[j] * 2^(j - r),   from old = (1, 0, .., 0), once per column.
+  Updating in place is right only from the top rank downwards (the pass for j reads old[j] before it is scaled and has finished with old[j + 1]).  The
+  result lists the k highest ranks from the top and lumps the rest: [res[r], res[r-1], .., res[r-k+1], sum(res[0 .. r-k])]."""
+  R = "R-C12-RANKDP"
+  repo = ctx.repo
+  f = repo.func(MOD, "RankDistribution")
+  w = sym.Walker(repo, f)
+  w.run()
+  r, c, k = [P("param", x_) for x_ in f.params()[:3]]
+  fors = sorted([i for i in w.loop_info.values() if isinstance(i["node"], ast.For) and i.get("visits")], key=lambda i: i["node"].lineno)
+  if len(fors) != 2:
+    ctx.incomplete(R, f.where, "column / rank recurrence", "expected a loop over the columns and one over the ranks, found %d loops" % len(fors))
+    return
+  outer, inner = fors
+  probs = []
+  one = (P("lit", "1.0"), Poly.const(1))
+  for vis in outer["visits"]:
+    if not (isinstance(vis["iter"], Poly) and vis["iter"] == sym.mk("range", c)):
+      probs.append("the recurrence is not applied once per column (range(c)): %r" % (vis["iter"],))
+    pre = [v_ for v_ in vis["pre_env"].values() if isinstance(v_, Poly) and v_.as_atom() is not None and v_.as_atom().kind == "upd"]
+    okinit = False
+    for v_ in pre:
+      a = v_.as_atom()
+      if len(a.args) == 3 and a.args[0] == sym.mk("listrep", P("seq", Poly.const(0)), r + 1) and as_poly(a.args[1]).is_zero() and any(as_poly(a.args[2]) == o_ for o_ in one):
+        okinit = True
+    if not okinit:
+      probs.append("the distribution does not start as (1, 0, .., 0) over the ranks 0 .. r")
+  n_paths = 0
+  for kind, val, s_, since, vis in inner["body_paths"]:
+    n_paths += 1
+    if kind not in ("fall", "continue"):
+      probs.append("the loop over the ranks is left by `%s`" % kind)
+      continue
+    stores = [w.events[i_] for i_ in s_.trace[since:] if w.events[i_].kind == "store" and not w.events[i_].data.get("synthetic")]
+    if len(stores) != 2:
+      probs.append("a pass over one rank makes %d updates, not two (res[j + 1] and res[j])" % len(stores))
+      continue
+    # by index: the lower one is j
+    a_, b_ = stores
+    ia, ib = as_poly(a_.data["index"]), as_poly(b_.data["index"])
+    if (ia - ib - 1).is_zero():
+      up, low, first_is_up = a_, b_, True
+    elif (ib - ia - 1).is_zero():
+      up, low, first_is_up = b_, a_, False
+    else:
+      probs.append("the two updates of a pass are not at neighbouring ranks (%r, %r)" % (ia, ib))
+      continue
+    J = as_poly(low.data["index"])
+    old = as_poly(stores[0].data["base"])
+    pd = sym.mk("pow", Poly.const(2), J - r)
+    oj, oj1 = sym.mk("idx", old, J), sym.mk("idx", old, J + 1)
+    vu, vl = as_poly(up.data["value"]), as_poly(low.data["value"])
+    # the second store reads through the first one: idx(upd(old, i, v), i') with i' != i is old[i']
+    def through(v):
+      out = v
+      for t_ in list(v.all_atoms()):
+        if t_.kind == "idx" and isinstance(t_.args[0], Poly) and t_.args[0].as_atom() is not None and t_.args[0].as_atom().kind == "upd":
+          ua = t_.args[0].as_atom()
+          if ua.args[0] == old and (as_poly(ua.args[1]) - as_poly(t_.args[1])).as_int() not in (None, 0):
+            out = sym.rebuild(out.deep_subst(t_, sym.mk("idx", old, as_poly(t_.args[1]))))
+      return out
+    vu, vl = through(vu), through(vl)
+    if not (vu - (oj1 + oj * (1 - pd))).is_zero():
+      probs.append("rank j + 1 does not receive old[j + 1] + old[j] * (1 - 2^(j - r)): %s" % repr(vu)[:120])
+    if not (vl - oj * pd).is_zero():
+      probs.append("rank j does not keep old[j] * 2^(j - r): %s" % repr(vl)[:120])
+    it = vis["iter"]
+    el = None
+    if isinstance(it, Poly) and it == sym.mk("range", r - 1, Poly.const(-1), Poly.const(-1)):
+      el = r - 1 - as_poly(vis["k"])
+    elif isinstance(it, Poly) and it == sym.mk("reversed", sym.mk("range", r)):
+      el = r - 1 - as_poly(vis["k"])
+    if el is None or not (J - el).is_zero():
+      probs.append("the ranks are not visited from r - 1 down to 0 (in-place update is exact only from the top): iterates %r, updates rank %r" % (it, J))
+  if n_paths == 0:
+    probs.append("no pass over the ranks found")
+  probs = sorted(set(probs))
+  ctx.record(R, f.where, "column step: new[j+1] = old[j+1] + old[j] (1 - 2^(j-r)), new[j] = old[j] 2^(j-r), j = r-1 .. 0, c times from (1, 0, .., 0)", not probs,
+             "; ".join(probs[:3]) or "%d path(s) of the rank loop" % n_paths)
+  # the result
+  okr = False
+  rets = [e for e in w.events if e.kind == "return" and e.node is not None and isinstance(e.data["value"], Poly) and any(t_.kind == "sym" for t_ in e.data["value"].all_atoms())]
+  bad = []
+  for e in rets:
+    v = e.data["value"]
+    fin = [Poly.atom(t_) for t_ in v.all_atoms() if t_.kind == "sym"]
+    res_ = fin[0] if len(set(map(repr, fin))) == 1 else None
+    if res_ is None:
+      bad.append("the result mixes several lists")
+      continue
+    NONE_ = P("lit", "None")
+    top = sym.mk("slice", sym.mk("slice", res_, -k, NONE_, NONE_), NONE_, NONE_, Poly.const(-1))
+    rest = P("seq", sym.mk("sum", sym.mk("slice", res_, NONE_, -k, NONE_)))
+    if not ((v - (top + rest)).is_zero() or v == sym.mk("concat", top, rest)):
+      bad.append("the result is not res[-k:][::-1] + [sum(res[:-k])]: %s" % repr(v)[:140])
+  okr = bool(rets) and not bad
+  ctx.record(R, f.where, "result: the k highest ranks from the top, the rest lumped", okr, "; ".join(sorted(set(bad))[:2]) or "[res[r], .., res[r-k+1], sum(res[0 .. r-k])]")
 
 
 # ------------------------------------------------------------------ UNIVERSAL parameters (L by n, Q = 10 * 2^L)
